@@ -24,7 +24,10 @@ type family struct {
 	Faulty   bool // wrap resources in Faulty: operation / pre-commit refusals are enumerated besides body aborts
 	File     bool // file-recorder mode (the context's own PGO_TRACE_DIR log is parsed)
 	MaxDepth int
-	Describe string
+	// FaultMaxOps > 0: failing attempts are enumerated only in systems of at most that many operations
+	// (bigger systems run fault-free in every interleaving)
+	FaultMaxOps int
+	Describe    string
 }
 
 var privateKinds = []string{"local", "ilocal", "reflocal", "incmap", "hashmap"}
@@ -260,6 +263,16 @@ func families(thorough bool) []family {
 					c.Prune()
 				}
 			}
+			// a system in which only one archetype does anything is a single-archetype program: the single families
+			nonEmpty := 0
+			for _, p := range cs.Progs {
+				if len(p) > 0 {
+					nonEmpty++
+				}
+			}
+			if nonEmpty < 2 {
+				c.Prune()
+			}
 			if !schedulable(cs) {
 				c.Prune()
 			}
@@ -270,14 +283,14 @@ func families(thorough bool) []family {
 	fs := []family{
 		{Name: "single", Draw: drawSingle(sTotal), Faulty: true,
 			Describe: fmt.Sprintf("one archetype over 1-2 of {local, indexed local, ref-bound local, IncMap of locals, HashMap of locals}; programs of 1-2 sections, <=3 operations each, <=%d in all; one failing attempt anywhere (await false before operation k | k-th resource operation refused | pre-commit refused)", sTotal)},
-		{Name: "ring-chan-shared", Draw: drawRing(ring("chan", true), mTotal, thorough),
-			Describe: fmt.Sprintf("three archetypes A->B->C->A linked by OutputChan/InputChan pairs plus one LocalShared variable used by all; per archetype 0-2 sections of 1-2 operations from {send, relay the value just read, receive, read x, write x}, <=%d operations in all; (relay only in the thorough tier); programs identical up to rotation of the ring are run once; every section-level interleaving; one aborted attempt (await false) at every position", mTotal)},
+		{Name: "ring-tcp", Draw: drawRing(ring("tcp", false), tTotal, true),
+			Describe: fmt.Sprintf("three archetypes A->B->C->A linked by TCP mailboxes on loopback; per archetype 0-2 sections of 1-2 operations from {send, relay, receive}, <=%d operations in all; every section-level interleaving; one aborted attempt at every position", tTotal)},
+		{Name: "ring-chan-shared", Draw: drawRing(ring("chan", true), mTotal, thorough), FaultMaxOps: map[bool]int{false: 3, true: 0}[thorough],
+			Describe: fmt.Sprintf("three archetypes A->B->C->A linked by OutputChan/InputChan pairs plus one LocalShared variable used by all; per archetype 0-2 sections of 1-2 operations from {send, relay the value just read, receive, read x, write x}, <=%d operations in all; (relay only in the thorough tier); programs identical up to rotation of the ring are run once; every section-level interleaving; one aborted attempt (await false) at every position (quick: in the systems of <=3 operations; the 4-operation systems run fault-free)", mTotal)},
 		{Name: "single-raw", Draw: drawSingle(sTotal, rawConfigs()...),
 			Describe: fmt.Sprintf("one archetype over 1-2 of {ref-bound local, IncMap of locals, HashMap of locals} bound WITHOUT Logging/Faulty wrappers, so that the runtime sees the real resource and element types; programs as in `single`, <=%d operations; one aborted attempt (await false) at every position", sTotal)},
 		{Name: "shared-indexed", Draw: drawRing(sharedOnly(), shTotal, true),
 			Describe: fmt.Sprintf("three archetypes sharing, bound WITHOUT Logging/Faulty wrappers (the runtime sees the real resource types), a function-valued LocalShared variable tbl and an IncMap m whose elements are LocalShared variables; per archetype 0-2 sections of 1-2 operations from {read tbl[1], write tbl[1], read tbl, write tbl (a new function), read m[1], write m[1]; thorough also write tbl[2], write m[2]}, <=%d operations in all; programs identical up to rotation run once; every section-level interleaving; one aborted attempt at every position; reads of shared variables are also replayed from all logs in commit order", shTotal)},
-		{Name: "ring-tcp", Draw: drawRing(ring("tcp", false), tTotal, true),
-			Describe: fmt.Sprintf("three archetypes A->B->C->A linked by TCP mailboxes on loopback; per archetype 0-2 sections of 1-2 operations from {send, relay, receive}, <=%d operations in all; every section-level interleaving; one aborted attempt at every position", tTotal)},
 		{Name: "file-single", Draw: drawSingle(2), Faulty: true, File: true,
 			Describe: "the single-archetype family with <=2 operations, judged on the JSON log file the context's own recorder writes under PGO_TRACE_DIR"},
 		{Name: "file-ring", Draw: drawRing(ring("chan", true), 3, true), File: true,
@@ -315,6 +328,7 @@ func body(f family, mu *sync.Mutex, tot *runStats, discards map[string]int) func
 				}
 			}()
 			r = newRunner(cs, we, f.Faulty, f.File, &st)
+			r.faultMaxOps = f.FaultMaxOps
 			defer r.close()
 			out, fl = r.run(c, !f.Faulty)
 		}()
